@@ -235,10 +235,31 @@ def check_writers(ctx, fb, rw):
         ws = executor_writes(f)
         if ws:
             seen.setdefault(f.qn, (f, ws[0]))
+    # a private member may be renamed: per class, as many writer functions as the table lists are accepted whatever
+    # they are called; one more than that is a new writer
+    def cls_of(qn):
+        return qn.rsplit('::', 1)[0]
+    table_by_cls = {}
+    for qn in WRITERS:
+        table_by_cls.setdefault(cls_of(qn), set()).add(qn)
+    seen_by_cls = {}
+    for qn, (f, n) in seen.items():
+        if f.cls and 'ctor' not in f.flags:
+            seen_by_cls.setdefault(cls_of(qn), set()).add(qn)
     for qn, (f, n) in sorted(seen.items()):
         key = 'R-ROUTE.writers ' + qn
-        ctx.instance(rw, key, dict(writer=qn, where=f.loc(n), reason=WRITERS.get(qn, '(not in table)')))
-        if qn not in WRITERS and not ('ctor' in f.flags):
+        ok = qn in WRITERS or 'ctor' in f.flags
+        reason = WRITERS.get(qn)
+        if not ok and f.cls:
+            c = cls_of(qn)
+            unknown = seen_by_cls.get(c, set()) - table_by_cls.get(c, set())
+            missing = table_by_cls.get(c, set()) - seen_by_cls.get(c, set())
+            if unknown and len(unknown) <= len(missing):
+                ok = True
+                reason = 'renamed member of a routing class (%s no longer writes it)' % ', '.join(
+                    sorted(x.split('::')[-1] for x in missing))
+        ctx.instance(rw, key, dict(writer=qn, where=f.loc(n), reason=reason or '(not in table)'))
+        if not ok:
             ctx.report(rw, key, f.loc(n), 'BaseCore::_executor is written by a function that is not one of the routing '
                        'sites: the executor a step was told to run on can be replaced',
                        'writer: ' + f.full[:300])
@@ -255,6 +276,8 @@ def run(ctx):
     rw = ctx.rule('R-ROUTE.writers', 'BaseCore::_executor is written only by the routing sites', minimum=10)
     rh2 = ctx.rule('R-HEAD.2', 'a started Task head does not move the starting step\'s executor away', minimum=6)
     rh = ctx.rule('R-HEAD', '(shared with C02/C12) heads reach their own work', minimum=6)
+    rst = ctx.rule('R-START', '(shared with C12) ToFuture(e)/Detach(e): the executor is bound to the head returned by '
+                   'the rewind and that head is submitted to it', minimum=2)
     for cfg, fb in sorted(fbs.items()):
         n = lib_exec.check_submit_linear(ctx, fb, rl)
         if n < 5:
@@ -274,4 +297,6 @@ def run(ctx):
             if check_awaiters(ctx, fb, ra) < 3:
                 ctx.broken('executor-naming awaiters not found')
         check_writers(ctx, fb, rw)
+        from rules import c12
+        c12.check_start(ctx, fb, rst)
         lib_head.check(ctx, fb, cfg, rh, rh2)
